@@ -80,12 +80,32 @@ def literal(ctx, modname, node):
     raise AnalysisError('not a literal: %s' % u(node))
 
 
-def strftime_format_names(lam):
-    """For `lambda d: d.strftime(NAME)` -> NAME node; else None."""
-    if isinstance(lam, ast.Lambda) and isinstance(lam.body, ast.Call) and isinstance(lam.body.func, ast.Attribute) \
-            and lam.body.func.attr == 'strftime' and len(lam.body.args) == 1 \
-            and isinstance(lam.body.func.value, ast.Name) and lam.body.func.value.id == lam.args.args[0].arg:
-        return lam.body.args[0]
+def as_lambda(ctx, modname, node):
+    """A table entry that is a callable of one argument, as (parameter name, body expression): a lambda, or the name of a
+    module-level function whose body is a single `return <expr>` (docstring allowed).  Else None."""
+    if isinstance(node, ast.Lambda) and len(node.args.args) == 1:
+        return node.args.args[0].arg, node.body
+    if isinstance(node, ast.Name):
+        fi = ctx.repo.functions.get('%s:%s' % (modname, node.id))
+        if fi is not None and not isinstance(fi.node, ast.Lambda) and len(fi.params) == 1:
+            body = [st for st in fi.node.body if not (isinstance(st, ast.Expr) and isinstance(st.value, ast.Constant))]
+            if len(body) == 1 and isinstance(body[0], ast.Return) and body[0].value is not None:
+                return fi.params[0], body[0].value
+    return None
+
+
+def strftime_format_names(lam, ctx=None, modname=None):
+    """For `lambda d: d.strftime(NAME)` (or a named one-line function doing the same) -> NAME node; else None."""
+    if ctx is not None:
+        al = as_lambda(ctx, modname, lam)
+    else:
+        al = (lam.args.args[0].arg, lam.body) if isinstance(lam, ast.Lambda) and len(lam.args.args) == 1 else None
+    if al is None:
+        return None
+    arg, body = al
+    if isinstance(body, ast.Call) and isinstance(body.func, ast.Attribute) and body.func.attr == 'strftime' \
+            and len(body.args) == 1 and isinstance(body.func.value, ast.Name) and body.func.value.id == arg:
+        return body.args[0]
     return None
 
 
